@@ -226,6 +226,10 @@ func (s *Selection) Len() int {
 	}
 
 	bpos, epos := s.Pos()
+	if bpos == -1 || epos == -1 {
+		return 0
+	}
+
 	buf := (*s.line)[bpos:epos]
 
 	return len(buf)
